@@ -3,6 +3,8 @@
 -/
 import BumpProof.Lemmas.MemBasic
 
+set_option linter.unusedSimpArgs false
+
 namespace Arena
 open Rs
 
